@@ -41,6 +41,7 @@ package pluginregistry
 //@   ensures checkFailures == old(checkFailures) + ite(err == nil, 0, 1)
 // the answer is decoded from the wire: a repeated message field holds no nil element
 //@   ensures forall e in values :: e != nil
+//@   ensures errWF(err)
 //@   fresh values
 
 // The document handed to Validate reaches the plugin whole: the chunks are consecutive, non-empty
